@@ -82,7 +82,7 @@ def accw(st, x, w=1):
 
 
 def accn(st, x):
-    return (st or 0) + x
+    return (st or 0) + 10 * x
 
 
 def odd1(x):
